@@ -87,6 +87,24 @@ def r31_1(ctx):
             traversal = v['di'] not in params
             need = ['notignored:%s' % v['di']] + (['accepted:%s' % v['di']] if traversal else [])
             missing = [x.split(':')[0] for x in need if x not in s]
+            if missing and not traversal:
+                # the test may sit in the callers: every call site of this function must hold the fact for the argument bound to the parameter
+                pidx = [i for i, p in enumerate(f['params']) if p['di'] == v['di']][0]
+                sites_ok, nsites = True, 0
+                for g in fns:
+                    gb = F.body(g)['body']
+
+                    def is_call(n, f=f):
+                        return n.get('k') == 'CallExpr' and n.get('fid') == f['id']
+                    r2 = paths.Must(cond=cond, kill=kill, observe=is_call).run(gb)
+                    for j, s2 in r2.at.items():
+                        nsites += 1
+                        ca = call_args(r2.at_node[j])
+                        av = first_var(ca[pidx]) if pidx < len(ca) else None
+                        if av is None or any(('%s:%s' % (m, av['di'])) not in s2 for m in missing):
+                            sites_ok = False
+                if nsites and sites_ok:
+                    missing = []
             ok = not missing
             ctx.ob('R31.1', 'lister-gate:%s:%s#%d' % (f['name'], 'found' if traversal else 'named', k), ok,
                    ('%s appends %s (line %s) only after %s' % (f['name'], v['n'], node['l'], ' and '.join(x.split(':')[0] for x in need))) if ok else
